@@ -127,7 +127,7 @@ Proof. reflexivity. Qed.
 Lemma g_receiver_invalid_sequence_eq r : g_receiver_invalid_sequence r = true.
 Proof. reflexivity. Qed.
 
-Lemma g_utf8_add_eq u b : g_utf8_add u b = Some (utf8_add u b).
+Lemma g_utf8_add_eq u b : g_utf8_add u b = utf8_add u b.
 Proof.
   unfold g_utf8_add, utf8_add, u8p_inner, set_u8p_inner.
   destruct (u8_parser_advance u b) as [u' o]. destruct o; reflexivity.
